@@ -23,6 +23,19 @@ theorem vjp_conj_real_adjoint (J : CVec K n → CVec K m) (G : CVec K m → CVec
   simp only [vjpWrap, if_true]
   rw [reInner_conjVec, hG, ← reInner_eq_reBdot_conj]
 
+/-- pointwise form: only the contract at the one pair `(conj v, d)` is used — this also covers
+    operators with a *real* input array, where JAX's cotangent is the real part and the contract
+    holds for real directions `d` only -/
+theorem vjp_conj_real_adjoint_at (J : CVec K n → CVec K m) (G : CVec K m → CVec K n)
+    (v : CVec K m) (d : CVec K n) (hG : reBdot (G (conjVec v)) d = reBdot (conjVec v) (J d)) :
+    reInner (vjpWrap true G v) d = reInner v (J d) := by
+  simp only [vjpWrap, if_true]
+  rw [reInner_conjVec, hG, ← reInner_eq_reBdot_conj]
+
+theorem reBdot_realPart (g d : CVec K n) (hd : ∀ i, (d i).im = 0) : reBdot (realPart g) d = reBdot g d := by
+  rw [reBdot_eq, reBdot_eq]
+  exact Finset.sum_congr rfl (fun i _ => by simp [realPart, hd i])
+
 /-- for a ℂ-linear Jacobian (`G` its plain transpose) `Gmap` is the complex adjoint -/
 theorem vjp_conj_adjoint (J : CVec K n → CVec K m) (G : CVec K m → CVec K n)
     (hG : ∀ c d, bdot (G c) d = bdot c (J d)) (v : CVec K m) (d : CVec K n) :
